@@ -12,6 +12,7 @@ import (
 	"sort"
 	"strconv"
 	"strings"
+	"sync"
 	"time"
 
 	"github.com/confluentinc/confluent-kafka-go/kafka"
@@ -207,6 +208,33 @@ func newRecoveryRig(maxRec, maxRate int, unlimited bool) *recoveryRig {
 	return g
 }
 
+var (
+	setupGateOnce sync.Once
+	setupGateOpen bool
+)
+
+// setupAcceptsRecoveryRequests: does a Kafka source with parallel recovery, built by the real Setup and not yet started,
+// accept recovery-request snapshots?  (once per process)
+func setupAcceptsRecoveryRequests() bool {
+	setupGateOnce.Do(func() {
+		kc := &kafkaconsumer.KafkaConsumer{}
+		kc.Init("verif-restarted-source", &recordingContext{})
+		cfg := map[string]string{"brokers": "127.0.0.1:1", "consumergroup": "g", "topic": "t", "buffersize": "10",
+			"parallelrecoveryenabled": "true", "parallelrecoverymaxrecords": "1000", "parallelrecoverymaxrate": "100"}
+		ch := make(chan firebolt.Event, 1)
+		if err := kc.Setup(cfg, ch); err != nil {
+			setupGateOpen = true // cannot tell: do not blame the gate
+			return
+		}
+		kc.VerifDetachMain(newScriptedConsumer())
+		if rc := kc.VerifRecoveryConsumer(); rc != nil {
+			rc.VerifDetach(newScriptedConsumer(), ch)
+		}
+		setupGateOpen = kc.AcceptsMessage("recoveryrequest")
+	})
+	return setupGateOpen
+}
+
 func recMsg(topic *string, p int32, o int64) *kafka.Message {
 	return &kafka.Message{TopicPartition: kafka.TopicPartition{Topic: topic, Partition: p, Offset: kafka.Offset(o)}, Value: []byte(fmt.Sprintf("%d:%d", p, o))}
 }
@@ -362,8 +390,12 @@ func execRecovery(input string) string {
 			for p, v := range old.client.low {
 				g.client.low[p] = v
 			}
-			for _, m := range topicLog {
-				g.rc.VerifTracker().VerifReceive(m.Key, m.Payload)
+			// the executor replays the message topic to a restarted source between its Setup and its Start, and hands a message
+			// only to a source that accepts the type at that moment (deliverMessage): ask a source built by the real Setup
+			if setupAcceptsRecoveryRequests() {
+				for _, m := range topicLog {
+					g.rc.VerifTracker().VerifReceive(m.Key, m.Payload)
+				}
 			}
 			callsBefore, sentBefore = 0, 0
 		default:
